@@ -388,6 +388,112 @@ def extract_c_conn_expr(src):
 
 
 
+# ----------------------------------------------------------------------------------------------------------------
+# Go-side magic-number mirrors of kernel enumerations
+# ----------------------------------------------------------------------------------------------------------------
+BOOL_FIELDS = {"IsWanIngressDirection", "Must", "HasRouting", "Not", "FromWan", "UseRedirectPeer", "HasBpfGetCurrentTask"}
+DATA_FIELDS = {"LastSeenNs", "Mark", "Pid", "Dscp", "Ifindex", "Sport", "Dport", "PortStart", "PortEnd", "TproxyPort", "ControlPlanePid",
+               "Dae0Ifindex", "DaeNetnsId", "DaeSocketMark", "Timestamp", "PrefixLen", "Padding2"}
+TCP_STATE_WORDS = {"closing": "TCP_STATE_CLOSING", "established": "TCP_STATE_ACTIVE", "active": "TCP_STATE_ACTIVE"}
+
+
+def field_domain(field):
+    typ, leaf = field.split(".")[0], field.split(".")[-1]
+    if typ == "bpfIfParams":
+        return ("go_only", None)
+    if leaf == "State" and typ == "bpfConnState":
+        return ("enum", "tcp_state")
+    if leaf == "Type" and typ == "bpfMatchSet":
+        return ("enum", "MatchType")
+    if leaf == "Type" and typ == "bpfDaeEvent":
+        return ("enum", "dae_event_type")
+    if leaf == "L4proto":
+        return ("ipproto", None)
+    if leaf == "Outbound":
+        return ("outbound", None)
+    if leaf in BOOL_FIELDS:
+        return ("bool", None)
+    if leaf in DATA_FIELDS:
+        return ("data", None)
+    return ("unknown", None)
+
+
+def magic_numbers(go, cd, gc):
+    """returns (rows for Coq, unrecognised list, janitor closing literal, all uses annotated)"""
+    rows, unrec, annotated = [], [], []
+    jan = []
+    cenum_by = {name: dict(e["values"]) for name, e in cd.enums.items()}
+    allc = {n: v for e in cd.enums.values() for n, v in e["values"]}
+    allc.update({"IPPROTO_TCP": 6, "IPPROTO_UDP": 17})
+    for u in go.get("magic_uses", []):
+        kind, enum = field_domain(u["field"])
+        where = "%s %s %s @%s:%d %s()" % (u["field"], u["op"], re.sub(r"\s+", " ", u["text"]), u["file"], u["line"], u["func"])
+        if kind in ("go_only", "data"):
+            annotated.append((where, kind, "not an enumeration"))
+            continue
+        txt = re.sub(r"^\w+\((.*)\)$", r"\1", u["text"].strip())
+        val = None
+        required_name = None
+        if u["value"] in ("true", "false"):
+            val = 1 if u["value"] == "true" else 0
+        elif u["value"] != "":
+            val = int(u["value"])
+        m = re.fullmatch(r"(\w+)\.(\w+)", txt)
+        if m:
+            nm = m.group(2)
+            if val is None and ("consts." + nm) in gc:
+                val = int(gc["consts." + nm])
+            if nm in allc:
+                required_name = nm
+            elif nm.startswith("Outbound"):
+                cn = "OUTBOUND_" + re.sub(r"(?<!^)(?=[A-Z])", "_", nm[len("Outbound"):]).upper()
+                if cn in cd.defines:
+                    required_name = cn
+                    allc[cn] = cd.defines[cn]
+            if val is None and required_name:
+                val = allc[required_name]     # a named constant of an external package (unix.IPPROTO_TCP): its name is its meaning
+        if val is None:
+            unrec.append(where + ": constant cannot be evaluated")
+            continue
+        if kind == "unknown":
+            unrec.append(where + ": field of a kernel-mirror struct compared/assigned with a constant, but C19 has no enumeration recorded for it")
+            continue
+        if kind == "enum":
+            allowed = sorted(set(cenum_by[enum].values())) if enum in cenum_by else None
+            if allowed is None:
+                raise Anchor("anchor moved: enum %s" % enum)
+        elif kind == "ipproto":
+            allowed = [6, 17]
+        elif kind == "bool":
+            allowed = [0, 1]
+        else:
+            allowed = list(range(256))
+        required = allc.get(required_name) if required_name else None
+        meaning = required_name
+        if kind == "enum" and enum == "tcp_state" and required is None:
+            words = u["then"] if u["op"] == "==" else (u["else"] if u["op"] == "!=" else [])
+            hits = set()
+            for w in words:
+                for kw, en in TCP_STATE_WORDS.items():
+                    if kw in w.lower():
+                        hits.add(en)
+            if len(hits) == 1:
+                meaning = hits.pop()
+                required = cenum_by["tcp_state"].get(meaning)
+                if required is None:
+                    raise Anchor("anchor moved: enumerator %s of enum tcp_state" % meaning)
+                if u["func"] == "cleanupConnStateMapBeforeLocked" and meaning == "TCP_STATE_CLOSING" and u["op"] == "==":
+                    jan.append(val)
+            else:
+                unrec.append(where + ": cannot infer which tcp_state the branch means (identifiers %s)" % words[:8])
+                continue
+        rows.append((where, val, required, allowed, u["literal"], meaning))
+        annotated.append((where, kind, "literal" if u["literal"] else "named", meaning))
+    if len(jan) != 1:
+        raise Anchor("anchor moved: the conn-state janitor's `value.State == <closing>` test was found %d times" % len(jan))
+    return rows, unrec, jan[0], annotated
+
+
 # key types: struct types that are (or embed) the key of a map the control plane shares
 KEY_STRUCTS = ("tuples_key", "tuples", "redirect_tuple", "lpm_key")
 # every function of tproxy.c that BUILDS an object of a key type, and how this check exercises it
@@ -568,6 +674,17 @@ def translate(sc):
     add("IPPROTO_TCP", 6, need(gc, "consts.IPPROTO_TCP", "Go const"))    # C value checked by the C driver (prints IPPROTO_*)
     add("IPPROTO_UDP", 17, need(gc, "consts.IPPROTO_UDP", "Go const"))
     kb = scan_key_builders(tproxy)
+    mrows, munrec, jan_lit, mann = magic_numbers(go, cd, gc)
+    cp_src = read("control/control_plane.go")
+    jt = {}
+    for nm in ("tcpConnStateTimeoutEstablished", "tcpConnStateTimeoutClosing"):
+        mm = re.search(r"^\s*%s\s*=\s*(\d+)\s*\*\s*time\.(Second|Minute)\b" % nm, cp_src, re.M)
+        if not mm:
+            raise Anchor("anchor moved: " + nm)
+        jt[nm] = int(mm.group(1)) * (10 ** 9 if mm.group(2) == "Second" else 60 * 10 ** 9)
+    for en in ("TCP_STATE_ACTIVE", "TCP_STATE_CLOSING"):
+        if en not in cenum:
+            raise Anchor("anchor moved: enumerator " + en)
     ce = extract_c_conn_expr(tproxy)
     add("connectivity.slots_per_outbound", ce["mul_outbound"], need(gc, "control.outboundConnectivitySlotsPerOutbound", "Go const"))
     add("connectivity.slots_per_domain", ce["mul_domain"], need(gc, "control.outboundConnectivitySlotsPerDomain", "Go const"))
@@ -618,6 +735,15 @@ def translate(sc):
                  ("dom_tcp", "outboundConnectivityDomainTCP"), ("dom_dns", "outboundConnectivityDomainDnsUDP"), ("dom_data", "outboundConnectivityDomainDataUDP")):
         L.append("Definition go_conn_%s : N := %d." % (k, int(gc["control." + g])))
     L.append("Definition c_conn_map_entries : N := %d." % cd.maps["outbound_connectivity_map"]["max_entries"])
+    L.append("(* Go uses of kernel-mirror struct fields against constants: (use, value, value the meaning requires, declared C values) *)")
+    L.append("Definition magic_uses : list (string * N * option N * list N) := [%s]." % ";\n  ".join(
+        "(%s, %d, %s, [%s])" % (coq_str(w.replace('"', "'")), v, "None" if r is None else "Some %d" % r,
+                                "; ".join(str(a) for a in (al if len(al) <= 64 else [v]))) for w, v, r, al, lit, mean in mrows))
+    L.append("Definition c_tcp_state_active : N := %d." % cenum["TCP_STATE_ACTIVE"])
+    L.append("Definition c_tcp_state_closing : N := %d." % cenum["TCP_STATE_CLOSING"])
+    L.append("Definition go_janitor_closing_literal : N := %d." % jan_lit)
+    L.append("Definition go_tcp_timeout_established_ns : N := %d." % jt["tcpConnStateTimeoutEstablished"])
+    L.append("Definition go_tcp_timeout_closing_ns : N := %d." % jt["tcpConnStateTimeoutClosing"])
     L.append("(* does copy_reversed_tuples() clear its destination before assigning the members? *)")
     L.append("Definition c_reversed_memset : bool := %s." % vlib.cbool(kb["reversed_memset"]))
     for req in ("tuples_key", "lpm_key", "match_set", "domain_routing"):
@@ -628,7 +754,8 @@ def translate(sc):
             raise Anchor("anchor moved: Go type " + req)
     L.append("")
     info = {"cd": cd, "c_decls": c_decls, "c_skipped": c_skipped, "go": go, "go_decl_list": go_decl_list, "pairs": pairs, "gopairs": gopairs,
-            "unpaired": unpaired, "consts": consts, "conn_expr": ce, "spec": spec, "key_builders": kb}
+            "unpaired": unpaired, "consts": consts, "conn_expr": ce, "spec": spec, "key_builders": kb,
+            "magic_rows": mrows, "magic_unrecognised": munrec, "magic_annotated": mann, "cenum": cenum, "jan_timeouts": jt}
     return info, "\n".join(L) + "\n"
 
 
@@ -676,13 +803,39 @@ def extract_go_func(src, header_re):
     return src[i:j + 1]
 
 
+def lift_janitor_go():
+    """clock read + timeouts, and the per-entry selection loop of cleanupConnStateMapBeforeLocked, as source text"""
+    cp = read("control/control_plane.go")
+    m = re.search(r"^func \(c \*ControlPlane\) cleanupConnStateMapBeforeLocked\(aggressiveCleanup bool, staleBeforeNs uint64\) \(udpStats, tcpStats mapCleanupStats\) \{\n(.*?)^}\n", cp, re.S | re.M)
+    if not m:
+        raise Anchor("anchor moved: cleanupConnStateMapBeforeLocked(aggressiveCleanup bool, staleBeforeNs uint64)")
+    body = m.group(1)
+    a0 = body.find("\tvar ts unix.Timespec\n")
+    a1 = body.find("\tscratch := c.connStateJanitorScratch()")
+    b0 = body.find("\t\t\tfor i := range count {\n")
+    if a0 < 0 or a1 < a0 or b0 < a1:
+        raise Anchor("anchor moved: shape of cleanupConnStateMapBeforeLocked (clock read / scratch / per-entry loop)")
+    j = match_brace(body, body.index("{", b0))
+    region_a, region_b = body[a0:a1], body[b0:j + 1]
+    if "unix.ClockGettime(unix.CLOCK_MONOTONIC, &ts)" not in region_a:
+        raise Anchor("anchor moved: janitor clock read")
+    if re.search(r"\bc\.(?!log\b)\w+", region_a) or re.search(r"\bc\.\w+", region_b) or "bpf." in region_a + region_b:
+        raise Anchor("anchor moved: janitor selection uses ControlPlane state")
+    region_a = region_a.replace("unix.ClockGettime(unix.CLOCK_MONOTONIC, &ts)", "c19ClockGettime(&ts)")
+    return ("type c19JanLog struct{}\n\nfunc (c19JanLog) Errorf(string, ...any) {}\n\ntype c19JanCtx struct{ log c19JanLog }\n\nvar c19Clock int64\n\n"
+            "func c19ClockGettime(ts *unix.Timespec) error {\n\t*ts = unix.NsecToTimespec(c19Clock)\n\treturn nil\n}\n\n"
+            "// source text of ControlPlane.cleanupConnStateMapBeforeLocked: clock read and timeouts, then the per-entry selection\n"
+            "func c19JanitorSelect(aggressiveCleanup bool, staleBeforeNs uint64, keysOut []bpfTuplesKey, valuesOut []bpfConnState) (udpKeysToDelete, tcpKeysToDelete []bpfTuplesKey, udpStats, tcpStats mapCleanupStats) {\n"
+            "\tc := c19JanCtx{}\n\t_ = c\n" + region_a + "\tcount := len(keysOut)\n" + region_b + "\n\treturn\n}\n")
+
+
 def gen_lifted_go():
     src = read("control/bpf_utils.go")
     body_lpm = extract_go_func(src, r"^func cidrToBpfLpmKey\(prefix netip\.Prefix\) _bpfLpmKey \{")
     body_enc = extract_go_func(src, r"^func \(r bpfPortRange\) Encode\(\) \(b \[16\]byte\) \{")
     return ("//go:build verif\n\npackage control\n\n// GENERATED by tools/c19.py: source text of the real-build functions of control/bpf_utils.go\n\n"
-            "import (\n\t\"encoding/binary\"\n\t\"net/netip\"\n\n\t\"github.com/daeuniverse/dae/common\"\n)\n\n"
-            "var _ = binary.LittleEndian\nvar _ = common.Htons\n\n"
+            "import (\n\t\"encoding/binary\"\n\t\"net/netip\"\n\n\t\"github.com/daeuniverse/dae/common\"\n\t\"golang.org/x/sys/unix\"\n)\n\n"
+            "var _ = binary.LittleEndian\nvar _ = common.Htons\n\n" + lift_janitor_go() + "\n"
             "func verifC19RealCidrToBpfLpmKey(prefix netip.Prefix) _bpfLpmKey " + body_lpm + "\n\n"
             "func verifC19RealPortRangeEncode(r bpfPortRange) (b [16]byte) " + body_enc + "\n")
 
@@ -786,11 +939,18 @@ def gen_flow(rng, fam=None):
 
 
 def gen_case(rng, kind=None):
-    kind = kind or rng.choice(["tuple"] * 4 + ["rev"] * 3 + ["conn"] * 3 + ["lpm"] * 4 + ["dom"] * 2 + ["ms"] * 3 + ["mac"])
+    kind = kind or rng.choice(["tuple"] * 4 + ["rev"] * 3 + ["jan"] * 2 + ["conn"] * 3 + ["lpm"] * 4 + ["dom"] * 2 + ["ms"] * 3 + ["mac"])
     if kind == "tuple":
         return {"k": "tuple", "flow": gen_flow(rng)}
     if kind == "rev":
         return {"k": "rev", "flow": gen_flow(rng)}
+    if kind == "jan":
+        f = gen_flow(rng)
+        f["proto"] = 6
+        closing, est = 10 * 10 ** 9, 120 * 10 ** 9
+        a1 = rng.choice([closing + 1, closing + 10 ** 9, est - 1, est, closing + rng.randrange(1, est - closing)])
+        a2 = rng.choice([est + 1, est + 10 ** 9, est + rng.randrange(1, 10 ** 12)])
+        return {"k": "jan", "flow": f, "fin": rng.random() < 0.5, "rst": rng.random() < 0.4, "ages": [a1, a2]}
     if kind == "conn":
         dom = rng.choice([0, 1, 2, 2])
         ob = rng.choice([0, 1, 2, 127, 128, 251, 252, 253, 254, 255]) if rng.random() < 0.5 else rng.randrange(256)
@@ -871,6 +1031,8 @@ def go_inputs(c):
         return [{"op": "tuple", "src": ap_str(f["src"], f["gs"], f["sport"]), "dst": ap_str(f["dst"], f["gd"], f["dport"]), "proto": f["proto"]}]
     if k == "rev":    # the control plane's key for the flow a reply packet f belongs to: tuple (dst -> src)
         return [{"op": "tuple", "src": ap_str(f["dst"], f["gd"], f["dport"]), "dst": ap_str(f["src"], f["gs"], f["sport"]), "proto": f["proto"]}]
+    if k == "jan":
+        return []      # needs the kernel-written bytes first: see run_impl
     if k == "conn":
         return [{"op": "conn", "outbound": c["outbound"], "l4": "udp" if c["nt"]["udp"] else "tcp", "ipv": "6" if c["v6"] else "4",
                  "isdns": c["nt"]["isdns"], "dom": c["nt"]["dom"]}]
@@ -896,6 +1058,10 @@ def c_inputs(c, go_res):
     k = c["k"]
     if k in ("tuple", "dom", "mac", "rev"):
         return [t_line(c["flow"])]
+    if k == "jan":
+        f = c["flow"]
+        w = 8 if f["src"][0] == "4" else 32
+        return ["J %s %0*x %0*x %d %d %d" % (f["src"][0], w, f["src"][1], w, f["dst"][1], f["sport"], f["dport"], 1 if c["rst"] else 0)]
     if k == "conn":
         return ["K %d %d %d %s" % (c["outbound"], c["l4proto"], c["dport"], "6" if c["v6"] else "4")]
     if k == "lpm":
@@ -943,6 +1109,28 @@ def run_impl(sc, gobin, cbin, cases, tag):
     for c, n in zip(cases, ccounts):
         c["c"] = outl[i:i + n]
         i += n
+    # second Go pass: the janitor's selection on the bytes the kernel code wrote
+    jan = [c for c in cases if c["k"] == "jan"]
+    if jan:
+        inp2, outp2 = sc.path("c19_%s_j.in" % tag), sc.path("c19_%s_j.out" % tag)
+        todo = []
+        with open(inp2, "w") as fh:
+            for c in jan:
+                m = re.match(r"J key=(\w+) syn=(\w+) fin=(\w+)$", c["c"][0])
+                if not m:
+                    c["go"] = [{"err": "kernel lifecycle did not produce SYN and FIN entries: " + c["c"][0]}]
+                    continue
+                fh.write(json.dumps({"op": "janitor", "keyhex": m.group(1), "valhex": m.group(3) if c["fin"] else m.group(2), "ages": c["ages"]}) + "\n")
+                todo.append(c)
+        if todo:
+            rc, so, se, dt = vlib.run_go_harness(gobin, "TestVerifC19", inp2, outp2)
+            if rc != 0:
+                return "Go harness (janitor pass) failed rc=%d: %s %s" % (rc, so[-1500:], se[-1500:])
+            res = [json.loads(l) for l in open(outp2)]
+            if len(res) != len(todo):
+                return "Go harness (janitor pass) answered %d lines for %d inputs" % (len(res), len(todo))
+            for c, r in zip(todo, res):
+                c["go"] = [r]
     return None
 
 
@@ -1002,6 +1190,10 @@ def case_to_coq(c, pool, info):
         t = parse_t(c["c"][0])
         return "(KTuple %s %s %s %s %s)" % (c_flow(f, pool), c_go(f["src"], f["gs"], pool), c_go(f["dst"], f["gd"], pool),
                                             hexbytes(g[0]["hex"]), hexbytes(t["tuple"])), pre
+    if k == "jan":
+        r = g[0]
+        return "(KJan %s %d %s %s %s %s)" % (vlib.cbool(c["fin"]), r["state"], pool.n(c["ages"][0]), pool.n(c["ages"][1]),
+                                             vlib.cbool(r["deleted"][0]), vlib.cbool(r["deleted"][1])), pre
     if k == "rev":
         t = parse_t(c["c"][0])
         if "rev" not in t or "rt" not in t:
@@ -1141,9 +1333,10 @@ def layout_stage(sc, info, cbin, go_layouts):
             "Definition CS := Eval vm_compute in c_summary.\nPrint CS.\nDefinition CF := Eval vm_compute in c_first_summary.\nPrint CF.\n"
             "Definition GS := Eval vm_compute in go_summary.\nPrint GS.\nDefinition PR := Eval vm_compute in pair_report.\nPrint PR.\n"
             "Definition GP := Eval vm_compute in gopair_report.\nPrint GP.\nDefinition CR := Eval vm_compute in const_report.\nPrint CR.\n"
+            "Definition MR := Eval vm_compute in magic_report.\nPrint MR.\n"
             "Definition OK := Eval vm_compute in (forallb (fun d => ty_ok (snd d) && lang_ok LC (snd d)) c_decls, forallb (fun d => ty_ok (snd d) && lang_ok LGo (snd d)) go_decls).\nPrint OK.\n")
     ok, out = vlib.coq_eval("C19_layouts", text)
-    vals = coq_values(out, ["CS", "CF", "GS", "PR", "GP", "CR", "OK"]) if ok else None
+    vals = coq_values(out, ["CS", "CF", "GS", "PR", "GP", "CR", "MR", "OK"]) if ok else None
     if vals is None:
         return ["layout evaluation in Coq failed: " + out[-1500:]], [], {}
     if vals["OK"] != (True, True):
@@ -1230,6 +1423,19 @@ def layout_stage(sc, info, cbin, go_layouts):
         if not agree:
             viol.append(("const:%s" % n, {"constant": n, "c_value": cv, "go_value": gv, "json_spec_value": jv},
                          "shared constant %s: C %s, Go %s, JSON spec %s" % (n, cv, gv, jv)))
+    for (n, agree), (where, val, req, allowed, lit, meaning) in zip(vals["MR"], info["magic_rows"]):
+        if not agree:
+            fld = where.split()[0]
+            viol.append(("magic:%s:%s" % (fld, where.split("@")[1].split(":")[0]),
+                         {"go_use": where, "go_value": val, "written_as": "integer literal" if lit else "named constant", "meaning_in_go": meaning,
+                          "value_of_that_enumerator_in_c": req, "declared_c_values": allowed if len(allowed) <= 64 else "0..255",
+                          "c_enum_tcp_state": {k: v for k, v in info["cenum"].items() if k.startswith("TCP_STATE_")}},
+                         "Go uses %s for %s where the kernel's %s is %s (declared C values %s): %s"
+                         % (val, fld, meaning or "enumeration", req, allowed if len(allowed) <= 16 else "...", where)))
+    for u in info["magic_unrecognised"]:
+        tie.append("unrecognised use of a kernel-mirror field against a constant: " + u)
+    if cconst.get("TCP_STATE_ACTIVE") != info["cenum"].get("TCP_STATE_ACTIVE") or cconst.get("TCP_STATE_CLOSING") != info["cenum"].get("TCP_STATE_CLOSING"):
+        tie.append("enum tcp_state: parser %s, clang %s" % ({k: v for k, v in info["cenum"].items() if k.startswith("TCP_STATE_")}, cconst))
     for u in info["unpaired"]:
         viol.append(("unpaired:%s" % u, {"go_type": u}, "Go mirror type %s has no C declaration of the corresponding name" % u))
     # --- map key/value sizes (C side) against the mirrors used for them
@@ -1334,12 +1540,15 @@ def matcher_of(case, code):
         return "key:ms:%s:code%d" % (case["kind"], code)
     if k == "conn":
         return "key:conn:dom%d:code%d" % (case["dom"], code)
+    if k == "jan":
+        return "janitor:%s:code%d" % ("closing" if case["fin"] else "active", code)
     if k == "lpm":
         return "key:lpm:%s:%s:code%d" % (case["paddr"][0], case["grep"], code)
     f = case["flow"]
     return "key:%s:%s%s:code%d" % (k, f["src"][0], f["dst"][0], code)
 
 
+DESCR_JAN = "the control plane's janitor applies the wrong timeout class to a conn_state entry the kernel wrote (state value mismatch)"
 DESCR = {4: "the bytes the Go constructor produces differ from the key of the entity", 5: "the bytes the kernel code computes differ from the key of the entity",
          6: "control plane and kernel compute different keys / values for the same entity"}
 
@@ -1457,7 +1666,11 @@ def main(argv):
             if (cmaps[mname][0], cmaps[mname][1]) != (ks, vs):
                 lviol.append(("mapsize:%s" % mname, {"map": mname, "c_key_value_size": cmaps[mname][:2], "go_key_value_size": (ks, vs), "go_types": (kt, vt)},
                               "map %s: kernel key/value size %s, control plane uses %s" % (mname, cmaps[mname][:2], (ks, vs))))
-        n_layout_items = len(info["pairs"]) + len(info["gopairs"]) + len(info["consts"]) + len(MAP_TYPES)
+        n_layout_items = len(info["pairs"]) + len(info["gopairs"]) + len(info["consts"]) + len(MAP_TYPES) + len(info["magic_rows"])
+        cov["magic_number_uses"] = {"checked": len(info["magic_rows"]), "integer_literals": sum(1 for r in info["magic_rows"] if r[4]),
+                                    "not_enumerations_skipped": sum(1 for a in info["magic_annotated"] if a[1] in ("data", "go_only")),
+                                    "unrecognised": info["magic_unrecognised"],
+                                    "uses": [a[0] + " — " + str(a[-1]) for a in info["magic_annotated"] if a[1] not in ("data", "go_only")][:60]}
 
         log("layout stage done at %.1fs" % (vlib.time.time() - out.t0))
         # ---- 3b. key cases
@@ -1542,7 +1755,7 @@ def main(argv):
             texts = [t for c, t in all_err[i] if t]
             out.violation("impl_vs_spec_" + re.sub(r"\W+", "_", m), {"case": small, "codes": sorted(set(c for c, _ in all_err[i])), "notes": texts,
                                                                      "how": "./check C19 --replay <this file>: feeds the entity to TestVerifC19 and to harness/c/c19_layout.c and compares the raw bytes"},
-                          "%s (%s; %d failing entities of this class)" % (DESCR[code], m, sum(1 for j in spec_fail if matcher_of(cases[j], code) == m)), matchers=[m])
+                          "%s (%s; %d failing entities of this class)" % (DESCR_JAN if cases[i]["k"] == "jan" else DESCR[code], m, sum(1 for j in spec_fail if matcher_of(cases[j], code) == m)), matchers=[m])
             if len(reported) >= 6:
                 break
         if not spec_fail and not lviol and (model_fail or thm_fail or tie_broken or tie or not proof_ok):
@@ -1572,7 +1785,7 @@ def main(argv):
                    rule="entities from one seeded PRNG, boundary-biased (addresses 0/all-ones/mapped/NAT64/multicast, ports 0/53/65535/byte-swapped 53, prefix lengths 0/1/7/8/9/width-1/width with "
                         "destinations just inside / one bit outside, outbound ids 0/1/251..255, all match_set kinds); signature = (case kind, address or value class, Go representation / prefix class, "
                         "port or hit class); every distinct signature counted (all are non-trivial: each runs both real constructors); plus the exhaustive declaration/constant/map-size items",
-                   cases_by_kind={{1: "tuple", 2: "connectivity", 3: "lpm", 4: "domain", 5: "match_set", 6: "mac", 7: "reversed_tuple"}.get(k, str(k)): v for k, v in sorted(by_kind.items())},
+                   cases_by_kind={{1: "tuple", 2: "connectivity", 3: "lpm", 4: "domain", 5: "match_set", 6: "mac", 7: "reversed_tuple", 8: "conn_state_janitor"}.get(k, str(k)): v for k, v in sorted(by_kind.items())},
                    traces_validated_against_impl=n_eval - len(model_fail),
                    comparisons="per entity: Go bytes = Go model, C bytes = C model, models = spec, Go bytes = spec, C bytes = spec, Go bytes = C bytes; "
                                "LPM: C trie holding the Go key hits for the packet iff the prefix contains the address; declarations: model layouts = clang = go/types = compiled",
